@@ -483,6 +483,7 @@ func (r *TableHTMLRenderer) renderTableCell(
 		tag = "th"
 	}
 	if entering {
+		var styleAttr []byte
 		_, _ = fmt.Fprintf(w, "<%s", tag)
 		if n.Alignment != ast.AlignNone {
 			amethod := r.TableConfig.TableCellAlignMethod
@@ -507,21 +508,60 @@ func (r *TableHTMLRenderer) renderTableCell(
 				}
 				style := fmt.Sprintf("text-align:%s", n.Alignment.String())
 				cob.AppendString(style)
-				n.SetAttributeString("style", cob.Bytes())
+				styleAttr = cob.Bytes()
 			}
 		}
 		if n.Attributes() != nil {
 			if tag == "td" {
-				html.RenderAttributes(w, n, TableTdCellAttributeFilter) // <td>
+				renderTableCellAttributes(w, n, TableTdCellAttributeFilter, styleAttr) // <td>
 			} else {
-				html.RenderAttributes(w, n, TableThCellAttributeFilter) // <th>
+				renderTableCellAttributes(w, n, TableThCellAttributeFilter, styleAttr) // <th>
 			}
+		} else if styleAttr != nil {
+			renderTableCellAttributes(w, n, nil, styleAttr)
 		}
 		_ = w.WriteByte('>')
 	} else {
 		_, _ = fmt.Fprintf(w, "</%s>\n", tag)
 	}
 	return gast.WalkContinue, nil
+}
+
+var attrNameStyle = []byte("style")
+
+// renderTableCellAttributes renders attributes of the cell in their order,
+// with the style attribute replaced by the computed one (appended if absent).
+func renderTableCellAttributes(w util.BufWriter, n gast.Node, filter util.BytesFilter, style []byte) {
+	written := style == nil
+	for _, attr := range n.Attributes() {
+		if bytes.Equal(attr.Name, attrNameStyle) && style != nil {
+			_, _ = w.WriteString(` style="`)
+			_, _ = w.Write(util.EscapeHTML(style))
+			_ = w.WriteByte('"')
+			written = true
+			continue
+		}
+		if filter != nil && !filter.Contains(attr.Name) && !bytes.HasPrefix(attr.Name, []byte("data-")) {
+			continue
+		}
+		_ = w.WriteByte(' ')
+		_, _ = w.Write(attr.Name)
+		_, _ = w.WriteString(`="`)
+		var value []byte
+		switch typed := attr.Value.(type) {
+		case []byte:
+			value = typed
+		case string:
+			value = util.StringToReadOnlyBytes(typed)
+		}
+		_, _ = w.Write(util.EscapeHTML(value))
+		_ = w.WriteByte('"')
+	}
+	if !written {
+		_, _ = w.WriteString(` style="`)
+		_, _ = w.Write(util.EscapeHTML(style))
+		_ = w.WriteByte('"')
+	}
 }
 
 type table struct {
